@@ -1019,21 +1019,27 @@ func (d *decoderState) consumeObject(flags *jsonwire.ValueFlags, pos, depth int)
 		} else {
 			pos += n
 		}
-		quotedName := d.buf[pos-n : pos]
-		if !d.Flags.Get(jsonflags.AllowDuplicateNames) && !names.insertQuoted(quotedName, flags2.IsVerbatim()) {
-			return pos - n, wrapWithObjectName(ErrDuplicateName, quotedName)
+		// NOTE: The name may move within d.buf whenever more data is fetched,
+		// so always locate it relative to its absolute offset.
+		nameAbsPos := d.baseOffset + int64(pos-n)
+		quotedName := func() []byte {
+			i := int(nameAbsPos - d.baseOffset)
+			return d.buf[i : i+n]
+		}
+		if !d.Flags.Get(jsonflags.AllowDuplicateNames) && !names.insertQuoted(quotedName(), flags2.IsVerbatim()) {
+			return pos - n, wrapWithObjectName(ErrDuplicateName, quotedName())
 		}
 
 		// Handle after name.
 		pos += jsonwire.ConsumeWhitespace(d.buf[pos:])
 		if d.needMore(pos) {
 			if pos, err = d.consumeWhitespace(pos); err != nil {
-				return pos, wrapWithObjectName(err, quotedName)
+				return pos, wrapWithObjectName(err, quotedName())
 			}
 		}
 		if d.buf[pos] != ':' {
 			err := jsonwire.NewInvalidCharacterError(d.buf[pos:], "after object name (expecting ':')")
-			return pos, wrapWithObjectName(err, quotedName)
+			return pos, wrapWithObjectName(err, quotedName())
 		}
 		pos++
 
@@ -1041,12 +1047,12 @@ func (d *decoderState) consumeObject(flags *jsonwire.ValueFlags, pos, depth int)
 		pos += jsonwire.ConsumeWhitespace(d.buf[pos:])
 		if d.needMore(pos) {
 			if pos, err = d.consumeWhitespace(pos); err != nil {
-				return pos, wrapWithObjectName(err, quotedName)
+				return pos, wrapWithObjectName(err, quotedName())
 			}
 		}
 		pos, err = d.consumeValue(flags, pos, depth)
 		if err != nil {
-			return pos, wrapWithObjectName(err, quotedName)
+			return pos, wrapWithObjectName(err, quotedName())
 		}
 
 		// Handle after value.
